@@ -211,9 +211,27 @@ def monWatchAll (nWatch : Nat) (es : List Ev) : Option String :=
       | none => none
     | _ => none
 
+/-- A member id the coordinator has just assigned (JoinGroup answered successfully) IS the group's current member id:
+the next JoinGroup carries it, unless a LeaveGroup for it was attempted in between (`leave m` = `leaveGroup(m)` entered).
+Otherwise the coordinator is left with a member — possibly the elected leader — that nobody will ever sync, heartbeat or
+leave for, and the retry joins as a second membership ("closing the group sends LeaveGroup for the current member id").
+The obligation ends at the next JoinGroup request (what the code does with an id after a REJECTED join is not judged). -/
+def monMemberKept (es : List Ev) : Option String :=
+  let check (cur : Option String) (mi : String) : Option String :=
+    match cur with
+    | some m => if mi != m then some s!"member-id-dropped:{if m == "" then "_" else m}" else none
+    | none => none
+  let rec go (cur : Option String) : List Ev → Option String
+    | [] => none
+    | .joinOk mi m _ _ :: r => match check cur mi with | some v => some v | none => go (some m) r
+    | .joinErr mi _ :: r => match check cur mi with | some v => some v | none => go none r
+    | .leave m :: r => go (if cur == some m then none else cur) r
+    | _ :: r => go cur r
+  go none es
+
 def monitors (nWatch : Nat) (es : List Ev) : List String :=
   [monOneLive es, monCtx es, monLeave es, monBackoff es, monHeartbeat es, monWatch es, monWatchAll nWatch es,
-   monLateStart es].filterMap id
+   monLateStart es, monMemberKept es].filterMap id
 
 def showPC (p : PC) : String := (toString (repr p)).replace "\n" " "
 
@@ -268,9 +286,11 @@ def answer (line : String) : String :=
           let hb := ((obs.find? (fun x => x.startsWith "hbend=")).map (fun x => (x.drop 6).toString)).bind (·.toInt?)
           let hbTxt := match hb with
             -- measured from the request's ARRIVAL at the coordinator (the deadline was set before it was written): a
-            -- loaded machine shortens the lower end, wake-ups lengthen the upper; "no deadline" shows as -2 (> 2 s)
-            | some h => if decide ((to : Int) ≤ 4 * h ∧ h ≤ (to : Int) + 250) then toString h
-                        else s!"{h}(expected-{to / 4}..{to + 250})"
+            -- loaded machine shortens the lower end, wake-ups lengthen the upper (a whole second of slack: the scenario that
+            -- matters configures session / rebalance time-outs of 3 s, so a deadline that includes one of them, or no
+            -- deadline at all, shows as -2 = "still alive after 2 s")
+            | some h => if decide ((to : Int) ≤ 4 * h ∧ h ≤ (to : Int) + 1000) then toString h
+                        else s!"{h}(expected-{to / 4}..{to + 1000})"
             | none => "?"
           let m := s!"joins={j} syncs={s} gen=ok hbend={hbTxt} leave=m1"
           s!"model={m} holds={if m == _impl then 1 else 0}"
